@@ -141,7 +141,10 @@ pub fn parse_cli_diags(stderr: &str) -> Vec<CliDiag> {
     let mut v: Vec<CliDiag> = vec![];
     for line in text.lines() {
         let t = line.trim_start();
-        if let Some(rest) = t.strip_prefix("error[") {
+        // a coded diagnostic of any severity the renderer knows (`check` emits errors today; a
+        // diagnostic printed as a warning is still an emitted diagnostic)
+        let head = ["error[", "warning[", "note[", "help[", "bug["].iter().find_map(|h| t.strip_prefix(h));
+        if let Some(rest) = head {
             if let Some(end) = rest.find(']') {
                 v.push(CliDiag { code: rest[..end].to_string(), file: None, line: 0, col: 0 });
             }
